@@ -266,6 +266,26 @@ def _second_solver(smt2_text):
       pass
 
 
+def replay_direct(body):
+  """./check C18 --replay FILE for a B1 counterexample: pushes the model string through the real printer and parser."""
+  import ast as _ast
+  model = _ast.literal_eval(body['args_repr'])['model'] or {}
+  name = body['fn']
+  try:
+    if 'Key(str)' in name:
+      p = daglish.path_str((daglish.Key(model.get('s', '')),))
+    elif 'Attr' in name:
+      p = daglish.path_str((daglish.Attr(model.get('a', 'a')),))
+    else:
+      p = daglish.path_str((daglish.Key(int(model.get('n', '0'))),))
+    got = daglish_extensions.parse_path(p + model.get('rest', ''))
+    print('printed', repr(p), 'parsed', got)
+    return len(got) >= 1 and got[0].code == p
+  except ValueError as e:
+    print('printed path rejected by the real parser:', e)
+    return False
+
+
 def sre_any():
   from engines import sre2z3
   return sre2z3.ANY
